@@ -203,7 +203,7 @@ func (res *Result) parse() {
 		// PrintT output: a TLA+ value on its own line; the harness only prints
 		// tuples and strings that start with one of these markers.
 		t := strings.TrimSpace(ln)
-		if strings.HasPrefix(t, "<<\"") || strings.HasPrefix(t, "\"{") || strings.HasPrefix(t, "\"[") || strings.HasPrefix(t, "\"BEH") {
+		if strings.HasPrefix(t, "<<\"") || (len(t) >= 2 && t[0] == '"' && t[len(t)-1] == '"') {
 			res.Printed = append(res.Printed, t)
 		}
 	}
